@@ -259,6 +259,11 @@ func replay(t *testing.T, c Check, path string) {
 	}
 	for _, v := range sh.Viol {
 		fmt.Printf("REPLAY-VIOLATION property=%s key=%s %s\n", c.ID, v.Key, v.Desc)
+		if os.Getenv("VERIF_REPLAY_DETAIL") != "" {
+			if b, err := json.MarshalIndent(v.Replay, "", " "); err == nil {
+				fmt.Printf("REPLAY-DETAIL %s\n", b)
+			}
+		}
 	}
 	if len(sh.Viol) > 0 {
 		t.Fail()
